@@ -25,8 +25,9 @@ Route forcing, verified in the runner source (all semantically neutral by the ru
   yq  : `--arg _verif x` -> context.named non-empty -> can_json_fast_path / can_yaml_fast_path false
         (yq_runner.rs:3194/3205) -> DOM path; plain -> M2/P9 streaming for programs accepted by
         can_use_m2_streaming (slices are NOT, so yq has no route pair for them and none is claimed).
-Anti-vacuity: with hook H5 (hooks/H5-route-trace.patch) every run logs the route taken; Trace_Routes requires the
-predicted name and different names within a pair.  Without the hook: "route names unavailable" in evidence.
+Anti-vacuity: with hook H5 every run logs the route taken; the driver counts the pairs whose two runs took
+DIFFERENT routes and declares the check inconclusive (exit 2) when fewer than half do.  Route names are not part of
+the acceptance condition: a routing change that keeps the output equal is not a violation.
 
 model  : MC_Routes -- the agreement register is a sound and complete oracle for route independence.
 replay : Gen_Routes enumerates all navigation programs (<= 2 path steps x 7 wrappers) with the gate predictions.
@@ -300,7 +301,7 @@ def run(ctx):
 
     cli = vlib.cli_bin()
     hook = hook_present(cli, ctx.work)
-    ctx.cov["route_hook"] = "H5 present: route names logged, predicted and required to differ within a pair" if hook \
+    ctx.cov["route_hook"] = "H5 present: route names logged; pairs with distinct routes counted (anti-vacuity, not part of acceptance)" if hook \
         else "route names unavailable (hook H5 not compiled in): only the output-equality clause is checked"
 
     # ---- document streams ------------------------------------------------------------------
@@ -387,6 +388,16 @@ def run(ctx):
         events.append(dict(common, forced=1, route=obs[1][3], r=len(vb), vh=digest(vb), rc=obs[1][0]))
         meta[i] = (pr, obs)
         ctx.note_distinct((pr["tool"], pr["kind"], pr["prog"], pr["mode"], hashlib.sha1(pr["data"]).hexdigest()))
+    # anti-vacuity (not part of the property): with hook H5 the two runs of a pair should have
+    # taken different routes.  Too few such pairs = the forcing spellings no longer force anything:
+    # the check is inconclusive (tool error), never a violation.
+    if hook:
+        named = [(obs[0][3], obs[1][3]) for _, obs in meta.values() if obs[0][3] and obs[1][3]]
+        distinct_pairs = sum(1 for a, b in named if a != b)
+        ctx.cov["route_pairs_named"] = len(named)
+        ctx.cov["route_pairs_distinct"] = distinct_pairs
+        if named and distinct_pairs * 2 < len(named):
+            raise vlib.ToolError("route forcing is vacuous: only %d of %d pairs took different routes" % (distinct_pairs, len(named)))
     for i in list(meta)[:3]:
         pr, obs = meta[i]
         ctx.sample({"argv_a": [pr["tool"]] + pr["a"], "argv_b": [pr["tool"]] + pr["b"], "stdin": pr["data"].decode("utf-8")[:160],
